@@ -64,6 +64,16 @@ def base_configs():
         ("sweep-ctx", [{"processor": "FloatValueDataSource", "parameters": {"value": 2.0}},
                        sweep("FloatMultiplyOperation", {"factor": "a * b + 1.0"}, {"a": {"from_context": "avals"}, "b": {"from_context": "bvals"}}, mode="by_position")],
          {"avals": [1.0, 2.0], "bvals": [3.0, 4.0]}),
+        # a context processor built by the model-fitting factory: its node parameters carry the keys the factory consumes
+        ("fitting", [{"processor": "FloatValueDataSource", "parameters": {"value": 2.0}},
+                     {"processor": "ModelFittingContextProcessor", "parameters": {"independent_var_key": "t_values", "dependent_var_key": "y", "context_key": "trend",
+                                                                                  "fitting_model": "model:PolynomialFittingModel:degree=1"}},
+                     {"processor": "rename:trend:fit"}], {"t_values": [0.0, 1.0, 2.0, 3.0], "y": [1.0, 3.0, 5.0, 7.0]}),
+        # string-defined processors and a slicer: classes generated per node
+        ("generated", [sweep("FloatValueDataSource", {"value": "2.0 * t + 3.0 * u"}, {"t": [1.0, 2.0], "u": [1.0]}),
+                       {"processor": "slice:FloatMultiplyOperation:FloatDataCollection", "parameters": {"factor": 2.0}},
+                       {"processor": "slice:FloatCollectValueProbe:FloatDataCollection", "context_key": "seen"},
+                       {"processor": "template:'{a}-{seen}':label"}, {"processor": "delete:a"}], {"a": 1.0}),
     ]
 
 
